@@ -251,4 +251,12 @@ func runC13(c *Ctx) {
 				maxArrive: c.Pick(4, 5), depth: c.Pick(6, 7)}), opt0)
 		}
 	}
+	// the constructors that take the timeout as an argument (deprecated FIFO/LIFO wrappers, pools): a
+	// value different from the library's default of one second
+	for _, ct := range []qCtor{qCtors()[3], qCtors()[4], qCtors()[8], qCtors()[9]} {
+		c.Explore(qdScenario(qdCase{prop: "C13", ctor: ct, limit: 1, maxBacklog: 3, timeout: 70 * time.Millisecond, maxArrive: 4, depth: c.Pick(5, 6)}), opt0)
+	}
+	for _, fp := range []string{"fifo", "lifo"} {
+		c.Explore(qdScenario(qdCase{prop: "C13", fixedPool: fp, limit: 1, maxBacklog: 3, timeout: 70 * time.Millisecond, maxArrive: 4, depth: c.Pick(5, 6)}), opt0)
+	}
 }
